@@ -198,6 +198,9 @@ def finding_matches(entry, viol):
         if key == "requires_tags":
             if not set(want) <= set(v.get("tags", [])):
                 return False
+        elif key.endswith("_prefix_in"):
+            if not any(str(v.get(key[:-10], "")).startswith(p) for p in want):
+                return False
         elif key.endswith("_in"):
             if v.get(key[:-3]) not in want:
                 return False
